@@ -48,10 +48,15 @@ def gen(ex, level, budget, reserve=0):
     for l in range(0, level + 1):
         if avail >= 2:
             options.append(("chain", l))
+    if level >= 1 and avail >= 1 and len(budget) > 2 and budget[2] > 0:
+        options.append("neg")      # a unary minus over an atom or a parenthesised expression (S-C07-04)
     k = options[ex.choose(len(options))] if len(options) > 1 else options[0]
     if k == "atom":
         budget[0] -= 1
         return ("atom",)
+    if k == "neg":
+        budget[2] -= 1
+        return ("neg", gen(ex, -1, budget, reserve))
     if k == "paren":
         budget[1] -= 1
         inner = gen(ex, 2, budget, reserve)
@@ -94,6 +99,11 @@ class Builder:
             a, b = self.fresh_pos(), self.fresh_pos()
             t = P.pmk("Variable", ["v%d" % self.n], P.sr(a, b), False)
             return t, t, a, b
+        if s[0] == "neg":
+            m = self.fresh_pos()
+            self.fresh_pos()
+            pt, et, a, b = self.build(s[1])
+            return P.pmk("Negation", [pt], P.sr(m, b), False), P.pmk("Negation", [et], P.sr(m, b), False), m, b
         if s[0] == "paren":
             lp = self.fresh_pos()
             lp_end = self.fresh_pos()
@@ -241,7 +251,7 @@ def run_reassociation(H, atoms):
 
     def body(ex):
         it.call_depth = 0
-        s = gen(ex, 2, [atoms, 2])
+        s = gen(ex, 2, [atoms, 2, 1])
         if s[0] == "atom":
             return
         b = Builder()
@@ -311,6 +321,8 @@ def render(s, m, b, counter=None):
         return "v%d" % counter["atom"]
     if s[0] == "paren":
         return "(" + render(s[1], m, b, counter) + ")"
+    if s[0] == "neg":
+        return "-" + render(s[1], m, b, counter)
     _, level, operands = s
     parts = [render(operands[0], m, b, counter)]
     for o in operands[1:]:
